@@ -1407,12 +1407,12 @@ def plan_C16(tier):
     lk = [Node("O", [Node("O", [Node("T"), Node("T")], [0, 1]), Node("T")], [1, 1]), Node("O", [Node("A", [Node("T"), Node("T")], []), Node("T")], [1, 1]),
           Node("O", [Node("T"), Node("O", [Node("T")], [0]), Node("T")], [1, 1, 2])]
     for node in lk:
-        # (two lookups in a row run out of solver memory under the quick tier's per-query limit: thorough only, 16 GB)
+        # (two lookups in a row run out of solver memory under the quick tier's per-query limit: thorough only, 20 GB limit)
         for s in ([["GO", "F"], ["GO", "N", "F"]] if tier == "quick" else
                   [["GO", "F"], ["GO", "N", "F"], ["GO", "F", "F"], ["GO", "N", "N", "F"], ["GO", "F", "F", "F"], ["GO", "F", "N"]]):
             q = shape_script_query(16, node, s, "lookup", 1, tight=True, timeout=1500)
             if s.count("F") >= 2:
-                q.mem_gb = 16
+                q.mem_gb = 8
             qs.append(q)
     # payload-proportional loops (hex dump of a bytes value, integer packing): one inductive ranking step, any trip count
     qs += rank_queries()
